@@ -41,6 +41,7 @@ type GenOutput struct {
 	Funcs       []string `json:"functions_under_contract"`
 	Errors      []string `json:"errors"`
 	Assumed     []string `json:"assumed"`
+	Replay      []*ReplayDesc `json:"replay_descs"`
 	LoadSeconds float64  `json:"load_s"`
 	GenSeconds  float64  `json:"gen_s"`
 }
@@ -105,6 +106,14 @@ func cmdGen(args []string) {
 	}
 	if layerOn["M"] {
 		units = append(units, runMachines(kc, blocks, *only, want)...)
+		for _, b := range blocks {
+			if b.Kind != "operator" || (*only != "" && !strings.Contains(b.Name, *only)) || (len(want) > 0 && !anyProp(b, want)) {
+				continue
+			}
+			if d := buildReplayDesc(kc, b); d != nil {
+				res.Replay = append(res.Replay, d)
+			}
+		}
 	}
 	if layerOn["P"] {
 		units = append(units, runProtocol(kc, blocks, *only, want)...)
